@@ -46,6 +46,47 @@ run_vcheck() {   # $1 = profile, rest = args; prints output, returns vcheck's ex
     return $rc
 }
 
+# C01 only ("nothing panics or aborts"): the harness process died. Run again with the in-flight
+# journal on, then replay every journalled case in a process of its own; a case that kills its
+# process again (other than by exhausting the stack, D12) is the violation. Returns 1 if one was
+# found, 2 otherwise.
+triage_abort() {   # $1 = profile
+    local prof="$1" jd="out/journal/C01_$1" limit="${VERIF_WATCHDOG_S:-7000}" found=0 f out rc dst
+    rm -rf "$jd"; mkdir -p "$jd" out/violations
+    ( exec 2>/dev/null
+      VERIF_JOURNAL_DIR="$ROOT/$jd" VERIF_EVIDENCE_OUT="$jd/evidence.json" \
+        timeout --signal=KILL "$limit" "harness/target/${prof}/vcheck" C01 --tier "$TIER" >"$jd/stdout.txt" 2>"$jd/stderr.txt" )
+    for f in "$jd"/inflight_*.json; do
+        [ -f "$f" ] || continue
+        out="$(timeout --signal=KILL 900 "harness/target/${prof}/vcheck" replay "$f" 2>&1)"; rc=$?
+        case $rc in 0|1|2|124|137) continue ;; esac
+        echo "$out" | grep -q "overflowed its stack" && continue
+        dst="out/violations/C01_abort_$(md5sum "$f" | cut -c1-16).json"
+        python3 - "$f" "$dst" "$rc" "$(echo "$out" | tail -5)" <<'PY'
+import json,sys
+j=json.load(open(sys.argv[1])); j["expected"]="returns without aborting the process"
+j["actual"]="replaying the case alone ends the process with exit status %s: %s"%(sys.argv[3],sys.argv[4][-600:])
+json.dump(j,open(sys.argv[2],"w"),indent=1,ensure_ascii=False)
+PY
+        echo "  signature: C01/process abort (the case in flight when the process died)"
+        echo "  case: $(head -c 600 "$f")"
+        echo "  actual: exit status $rc: $(echo "$out" | tail -2 | tr '\n' ' ' | cut -c1-300)"
+        echo "VIOLATION property=C01 replay=$ROOT/$dst"
+        found=1
+    done
+    if [ $found -eq 1 ]; then
+        python3 - "$TIER" "${VERIF_SEED:-0}" "$prof" > "out/ev_C01_${prof}.json" <<'PY'
+import json,sys
+print(json.dumps({"property_id":"C01","tier":sys.argv[1],"seed":int(sys.argv[2] or 0),"level":"exploration",
+ "coverage":{"evaluations":1,"distinct_nontrivial":1,"rule":"the run was cut short: the process was killed by the library under test; the case in flight was isolated by replaying the in-flight journal, one process per case",
+  "samples":["see the replay file of the VIOLATION line"],"exhaustive":False,"profile":sys.argv[3]},
+ "assumptions":[],"wall_s":0.0,"violations":1},indent=1))
+PY
+        return 1
+    fi
+    return 2
+}
+
 # ---------------------------------------------------------------------------------------------
 if [ "$ID" = replay ]; then
     FILE="${2:-}"
@@ -58,8 +99,15 @@ if [ "$ID" = replay ]; then
     PROF="$(sed -n 's/.*"profile"[[:space:]]*:[[:space:]]*"\([a-z]*\)".*/\1/p' "$FILE" | head -1)"
     [ -n "$PROF" ] || PROF=checked
     build_main "$PROF" || { tail -30 "out/build_${PROF}.log"; inconclusive "harness does not build against /repo"; }
-    run_vcheck "$PROF" replay "$FILE"
-    exit $?
+    out="$(run_vcheck "$PROF" replay "$FILE" 2>&1)"; rc=$?
+    if [ $rc -eq 2 ] && grep -q "process abort" "$FILE" && echo "$out" | grep -q "terminated abnormally" && ! echo "$out" | grep -q "overflowed its stack"; then
+        # the witness of a process abort: it still kills the process
+        echo "$out" | grep -v "^INCONCLUSIVE"
+        echo "VIOLATION property=$PROP replay=$FILE"
+        exit 1
+    fi
+    echo "$out"
+    exit $rc
 fi
 
 case "$ID" in
@@ -79,8 +127,13 @@ for PROF in $PROFILES; do
     build_main "$PROF" || { tail -30 "out/build_${PROF}.log"; inconclusive "harness does not build against /repo (profile $PROF)"; }
     PART="out/ev_${ID}_${PROF}.json"
     rm -f "$PART"
-    VERIF_EVIDENCE_OUT="$PART" run_vcheck "$PROF" "$ID" --tier "$TIER"
+    out="$(VERIF_EVIDENCE_OUT="$PART" run_vcheck "$PROF" "$ID" --tier "$TIER" 2>&1)"
     rc=$?
+    echo "$out"
+    if [ "$ID" = C01 ] && [ $rc -eq 2 ] && echo "$out" | grep -q "terminated abnormally"; then
+        triage_abort "$PROF"
+        rc=$?
+    fi
     [ -f "$PART" ] && PARTS="$PARTS $PART"
     if [ $rc -eq 1 ]; then RC=1; elif [ $rc -eq 2 ] && [ $RC -eq 0 ]; then RC=2; fi
 done
